@@ -4,11 +4,14 @@ From OlaBase Require Import Bytes.
 From C10 Require Import Gen Model Lemmas ProofsOpc Schedule.
 Local Open Scope N_scope.
 
-Lemma o_sched_total : forall es s pend out M R, o_inv s ->
+Section WithReg.
+  Variable reg : N -> bool.
+
+Lemma o_sched_total : forall es s pend out M R, (o_inv reg) s ->
   bytes_ok (pend ++ arrived es) = true ->
-  Frames (o_data s ++ pend ++ arrived es) M R ->
-  exists s' pend' out' M', run_sched ostate o_recv (s, pend, out) es = Some (s', pend', out') /\
-    o_inv s' /\ bytes_ok pend' = true /\ Frames (o_data s' ++ pend') M' R /\ out ++ M = out' ++ M'.
+  (Frames reg) (o_data s ++ pend ++ arrived es) M R ->
+  exists s' pend' out' M', run_sched ostate (o_recv reg) (s, pend, out) es = Some (s', pend', out') /\
+    (o_inv reg) s' /\ bytes_ok pend' = true /\ (Frames reg) (o_data s' ++ pend') M' R /\ out ++ M = out' ++ M'.
 Proof.
   induction es as [|e es IH]; intros s pend out M R Hi Hb F; cbn [arrived] in *.
   - rewrite app_nil_r in *. exists s, pend, out, M.
@@ -23,13 +26,13 @@ Proof.
       * set (pend := p :: pend') in *.
         set (room := o_cap s - len (o_data s)).
         rewrite bytes_ok_app in Hb. apply andb_prop in Hb. destruct Hb as [Hbp Hba].
-        destruct (Frames_total _ (o_data s ++ take room pend) (le_n _)) as (m1 & r1 & F1).
-        destruct (o_recv_frames s pend m1 r1 Hi ltac:(discriminate) Hbp F1) as (s1 & E & Hd & Hi1 & _).
+        destruct ((Frames_total reg) _ (o_data s ++ take room pend) (le_n _)) as (m1 & r1 & F1).
+        destruct ((o_recv_frames reg) s pend m1 r1 Hi ltac:(discriminate) Hbp F1) as (s1 & E & Hd & Hi1 & _).
         fold room in E.
-        destruct (Frames_total _ (r1 ++ drop room pend ++ arrived es) (le_n _)) as (M2 & R2 & F2).
-        pose proof (Frames_app _ _ _ F1 _ _ _ F2) as F12.
+        destruct ((Frames_total reg) _ (r1 ++ drop room pend ++ arrived es) (le_n _)) as (M2 & R2 & F2).
+        pose proof ((Frames_app reg) _ _ _ F1 _ _ _ F2) as F12.
         rewrite <- app_assoc in F12. rewrite (app_assoc (take room pend)), take_drop in F12.
-        destruct (Frames_det _ _ _ F _ _ F12) as [-> ->].
+        destruct ((Frames_det reg) _ _ _ F _ _ F12) as [-> ->].
         rewrite <- Hd in F2.
         assert (bytes_ok (drop room pend ++ arrived es) = true) as Hb2.
         { rewrite bytes_ok_app, Hba. rewrite (proj2 (bytes_ok_take_drop room pend Hbp)). reflexivity. }
@@ -40,8 +43,8 @@ Proof.
         -- rewrite app_assoc. exact Eo.
 Qed.
 
-Lemma o_invoke_drains : forall n s pend out, o_inv s -> bytes_ok pend = true -> (length pend <= n)%nat ->
-  exists s' out', run_sched ostate o_recv (s, pend, out) (repeat Invoke n) = Some (s', [], out').
+Lemma o_invoke_drains : forall n s pend out, (o_inv reg) s -> bytes_ok pend = true -> (length pend <= n)%nat ->
+  exists s' out', run_sched ostate (o_recv reg) (s, pend, out) (repeat Invoke n) = Some (s', [], out').
 Proof.
   induction n as [|n IH]; intros s pend out Hi Hb Hl.
   - destruct pend; [|cbn [length] in Hl; lia]. exists s, out. reflexivity.
@@ -49,8 +52,8 @@ Proof.
     + destruct (IH s [] out Hi Hb ltac:(cbn; lia)) as (s' & out' & R). exists s', out'. exact R.
     + set (pend := p :: pend') in *.
       set (room := o_cap s - len (o_data s)).
-      destruct (Frames_total _ (o_data s ++ take room pend) (le_n _)) as (m1 & r1 & F1).
-      destruct (o_recv_frames s pend m1 r1 Hi ltac:(discriminate) Hb F1) as (s1 & E & Hd & Hi1 & Hgne).
+      destruct ((Frames_total reg) _ (o_data s ++ take room pend) (le_n _)) as (m1 & r1 & F1).
+      destruct ((o_recv_frames reg) s pend m1 r1 Hi ltac:(discriminate) Hb F1) as (s1 & E & Hd & Hi1 & Hgne).
       fold room in E, Hgne.
       assert (length (drop room pend) <= n)%nat as Hl1.
       { assert (length pend = length (take room pend) + length (drop room pend))%nat as HL
@@ -65,25 +68,25 @@ Proof.
 Qed.
 
 Lemma opc_sched es : bytes_ok (arrived es) = true ->
-  (exists s pend out, run_sched ostate o_recv (o_init, [], []) es = Some (s, pend, out) /\
-     (pend = [] -> out = ref_opc (arrived es))) /\
-  (exists k s out, run_sched ostate o_recv (o_init, [], []) (es ++ repeat Invoke k) = Some (s, [], out) /\
-     out = ref_opc (arrived es)).
+  (exists s pend out, run_sched ostate (o_recv reg) (o_init, [], []) es = Some (s, pend, out) /\
+     (pend = [] -> out = (ref_opc reg) (arrived es))) /\
+  (exists k s out, run_sched ostate (o_recv reg) (o_init, [], []) (es ++ repeat Invoke k) = Some (s, [], out) /\
+     out = (ref_opc reg) (arrived es)).
 Proof.
   intros Hb.
-  destruct (Frames_total _ (arrived es) (le_n _)) as (M & R & F).
-  assert (ref_opc (arrived es) = M) as Href by (unfold ref_opc; apply (Frames_ref _ _ _ F); lia).
-  destruct (o_sched_total es o_init [] [] M R o_inv_init Hb F)
+  destruct ((Frames_total reg) _ (arrived es) (le_n _)) as (M & R & F).
+  assert ((ref_opc reg) (arrived es) = M) as Href by (unfold ref_opc; apply ((Frames_ref reg) _ _ _ F); lia).
+  destruct (o_sched_total es o_init [] [] M R (o_inv_init reg) Hb F)
     as (s' & p' & o' & M' & Rn & Hi' & Hb' & F' & Eo).
   cbn [app] in Eo.
   assert (p' = [] -> o' = M) as Hd.
-  { intros ->. rewrite app_nil_r in F'. destruct (o_nil s' M' R Hi' F') as [-> _].
+  { intros ->. rewrite app_nil_r in F'. destruct ((o_nil reg) s' M' R Hi' F') as [-> _].
     rewrite app_nil_r in Eo. auto. }
   split.
   - exists s', p', o'. split; [exact Rn|]. intros Hp. rewrite Href. apply Hd, Hp.
   - destruct (o_invoke_drains (length p') s' p' o' Hi' Hb' (le_n _)) as (s2 & o2 & R2).
     exists (length p'), s2, o2.
-    assert (run_sched ostate o_recv (o_init, [], []) (es ++ repeat Invoke (length p')) = Some (s2, [], o2))
+    assert (run_sched ostate (o_recv reg) (o_init, [], []) (es ++ repeat Invoke (length p')) = Some (s2, [], o2))
       as Hrun by (unfold run_sched in *; rewrite fold_left_app, Rn; exact R2).
     split; [exact Hrun|].
     assert (arrived (es ++ repeat Invoke (length p')) = arrived es) as Ha.
@@ -93,9 +96,10 @@ Proof.
       - exact IH. }
     assert (bytes_ok (arrived (es ++ repeat Invoke (length p'))) = true) as Hb2 by (rewrite Ha; exact Hb).
     rewrite <- Ha in F.
-    destruct (o_sched_total _ o_init [] [] M R o_inv_init Hb2 F)
+    destruct (o_sched_total _ o_init [] [] M R (o_inv_init reg) Hb2 F)
       as (s3 & p3 & o3 & M3 & Rn3 & Hi3 & _ & F3 & Eo3).
     rewrite Hrun in Rn3. inversion Rn3; subst s3 p3 o3.
-    rewrite app_nil_r in F3. destruct (o_nil s2 M3 R Hi3 F3) as [-> _].
+    rewrite app_nil_r in F3. destruct ((o_nil reg) s2 M3 R Hi3 F3) as [-> _].
     cbn [app] in Eo3. rewrite app_nil_r in Eo3. rewrite Href. auto.
 Qed.
+End WithReg.
